@@ -700,8 +700,12 @@ Please resolve this error in order to continue running the pipeline:`)
 		}
 		// Remove all related files from journal directory.
 		if files, err := util.Readdirnames(self.top.journalPath); err == nil {
+			// The journal entries of this node and of the nodes below it are
+			// named <base>.<...>.  Without the trailing dot, the entries of
+			// any other node whose name merely starts with this node's name
+			// (e.g. STAGE2 when resetting STAGE) would be deleted as well.
 			base := strings.TrimPrefix(strings.TrimPrefix(self.call.GetFqid(),
-				self.top.fqname), ".")
+				self.top.fqname), ".") + "."
 			for _, file := range files {
 				if strings.HasPrefix(file, base) {
 					os.Remove(path.Join(self.top.journalPath, file))
